@@ -30,7 +30,7 @@ type C01BCase struct {
 func c01BGen(t *rapid.T) C01BCase {
 	c := C01BCase{Big: rapid.IntRange(0, 4).Draw(t, "big"), After: rapid.IntRange(1, 30).Draw(t, "after"), Before: rapid.IntRange(0, 3).Draw(t, "before"), Rounds: rapid.IntRange(1, 4).Draw(t, "rounds"), Proto: pick(t, "proto", 2, 3)}
 	if c.Big == 0 {
-		c.Size = pick(t, "bytes", 64<<10, 1<<20, 4<<20)
+		c.Size = pick(t, "bytes", 64<<10, 256<<10, 1<<20)
 	} else {
 		c.Size = pick(t, "elems", 500, 3000, 12000)
 	}
@@ -44,11 +44,17 @@ func c01BRun(c C01BCase, st *kit.Stats) error {
 	if c.Proto == 3 {
 		conn.Hello3()
 	}
+	var setupErr error
+	setup := func(a ...string) {
+		if v, err := conn.Do(a...); setupErr == nil && (err != nil || v.IsErr()) {
+			setupErr = fmt.Errorf("harness: set-up %s: %v %v", a[0], clip(v.String()), err)
+		}
+	}
 	var big []string
 	wantLen := c.Size
 	switch c.Big {
 	case 0:
-		conn.Do("SET", "big", strings.Repeat("B", c.Size))
+		setup("SET", "big", strings.Repeat("B", c.Size))
 		big = []string{"GET", "big"}
 	case 1, 2, 3:
 		for lo := 0; lo < c.Size; lo += 500 {
@@ -59,7 +65,7 @@ func c01BRun(c C01BCase, st *kit.Stats) error {
 					a = append(a, "v")
 				}
 			}
-			conn.Do(a...)
+			setup(a...)
 		}
 		big = [][]string{nil, {"LRANGE", "big", "0", "-1"}, {"HGETALL", "big"}, {"SMEMBERS", "big"}}[c.Big]
 	default:
@@ -68,9 +74,12 @@ func c01BRun(c C01BCase, st *kit.Stats) error {
 			for i := lo; i < lo+250 && i < c.Size; i++ {
 				a = append(a, "key-"+strconv.Itoa(i), "v")
 			}
-			conn.Do(a...)
+			setup(a...)
 		}
 		big = []string{"KEYS", "key-*"}
+	}
+	if setupErr != nil {
+		return setupErr
 	}
 	ctr := 0
 	for r := 0; r < c.Rounds; r++ {
